@@ -916,6 +916,33 @@ def normfn(path):
     return re.sub(r"\{closure#\d+\}", "{closure}", path)
 
 
+def stripfn(path):
+    """A closure is its parent's code: table lines keep applying when code moves between a function and its closures."""
+    return re.sub(r"(::\{closure(#\d+)?\})+$", "", path)
+
+
+class TableIndex:
+    """Lines of a justification table, looked up for a site: first the lines written for exactly this function, then those for
+    the same function modulo closures, then those for a function this one is a private single-caller helper of (`extract
+    function` moves a site down that chain).  Every line still has its quota and its machine-checked backing, evaluated on the
+    site where it is now."""
+
+    def __init__(self, F, table):
+        self.G = cg.get(F)
+        self.exact, self.loose = {}, {}
+        for e in table:
+            self.exact.setdefault((normfn(e["fn"]), e["what"]), []).append(e)
+            self.loose.setdefault((stripfn(e["fn"]), e["what"]), []).append(e)
+
+    def lines(self, fn, what):
+        out = list(self.exact.get((normfn(fn.path), what), []))
+        for key in self.G.owner_chain(fn):
+            for e in self.loose.get((key, what), []):
+                if not any(e is x for x in out):
+                    out.append(e)
+        return out
+
+
 def site_key(s, ordinal):
     return "%s|%s|%d" % (s.fn.path, s.what, ordinal)
 
@@ -924,9 +951,7 @@ def run(chk, F, which):
     G, rs, reach, sites = inventory(F, which)
     D = Discharger(F, G, reach)
     table = load_table()
-    by_fn_what = {}
-    for e in table:
-        by_fn_what.setdefault((normfn(e["fn"]), e["what"]), []).append(e)
+    TI = TableIndex(F, table)
     used = {}
     counts = {}
     n_site = 0
@@ -950,7 +975,7 @@ def run(chk, F, which):
             chk.ok("panic-site", fk, summary, where, "%s: %s" % r, trivial=(r[0] == "D7"))
             counts[r[0]] = counts.get(r[0], 0) + 1
             continue
-        es = by_fn_what.get((normfn(k[0]), k[1]), [])
+        es = TI.lines(s.fn, k[1])
         # several lines may justify sites of the same kind in one function (each with its own machine-checked backing): the site is
         # justified by the first line with quota left whose backing holds for *this* site
         e, why, failed = None, "", None
@@ -992,7 +1017,7 @@ def run(chk, F, which):
         if r:
             chk.ok("divisor-nonzero", fk, summary, fn.where(bb), "%s: %s" % r)
             continue
-        es = by_fn_what.get((normfn(fn.path), "divisor:" + w.split("::")[-1]), [])
+        es = TI.lines(fn, "divisor:" + w.split("::")[-1])
         e = None
         for cand in es:
             if used.get(id(cand), 0) < cand.get("n", 1):
@@ -1023,7 +1048,7 @@ def run(chk, F, which):
         if r:
             chk.ok("float-finite", fk, summary, fn.where(bb), "%s: %s" % r)
             continue
-        es = by_fn_what.get((normfn(fn.path), "finite:" + short), [])
+        es = TI.lines(fn, "finite:" + short)
         e = next((c for c in es if used.get(id(c), 0) < c.get("n", 1)), None)
         if e is not None:
             used[id(e)] = used.get(id(e), 0) + 1
